@@ -109,7 +109,7 @@ CHECKS = {
              "ESU (irrational factors) are covered relationally by C13 only."),
     "C12": dict(
         technique="TLA+ state machine (PintRegistry) model-checked with TLC (action properties AtomicFailure, NoResidue, StackDiscipline); every TLC behaviour of length 3 replayed step by step on real registries; random histories of real calls validated by the total TLC trace spec Trace_Pint",
-        text="PintRegistry.tla has one action per public mutating call (enable / disable / with-enter / with-exit normal and by exception / define / "
+        text="PintRegistry.tla has one action per public mutating call (enable of one or of two names in one call / disable / with-enter of one or two names / with-exit normal and by exception / define / "
              "default_system) and per query; TLC explores every sequence up to length 4 (quick) or 5 (thorough) over a pool of contexts (rule with "
              "parameter, redefinition, both, ill-formed) and checks that a failed activation changes nothing, that leaving a block restores every answer, "
              "and the stack discipline; every behaviour of length 3 is executed on a fresh real registry with real with-blocks and exceptions, the stack "
@@ -125,7 +125,7 @@ CHECKS = {
              "varies, and the final 12-probe vector is compared with the specification; random sparse histories and registries built afresh and brought "
              "into the same declarative state are validated by Trace_Pint; 40-call histories over the bundled registry (7 contexts, 8 default systems, new "
              "definitions, 38 questions incl. lazily registered prefixed units, formatting, to_compact) and their fresh twins are validated by Trace_Hist; "
-             "registries of different numeric type and the application registry are checked for isolation.",
+             "registries of different numeric type and the application registry are checked for isolation; a context edited or replaced after use answers by its current content.",
         design_ref="DESIGN.md section 3, C13",
         note="Bundled-registry answers are compared as digests rounded to 10 significant digits (different cache paths may multiply floats in a different "
              "order)."),
@@ -135,7 +135,7 @@ CHECKS = {
              "queries) over three groups and two systems and checks that members are the least fixed point, cycles are refused, a system's members are "
              "those of its groups and edits are immediate; MC_C14b checks for five systems (rules new and new:old, also with exponent 2) that base-unit "
              "re-expression uses only base units, preserves dimensionality and physical value and is idempotent.  Behaviours of length 3 are executed "
-             "on real objects (members of every group and system and restricted compatible-unit listings after each step); every (system, probe) is "
+             "on real objects (members of every group and system and restricted compatible-unit listings after each step, and again reading only the systems / nothing until the last step); every (system, probe) is "
              "put through to_base_units, ito_base_units, get_base_units and default_system switching in random order; over the bundled registry, "
              "members of all groups and systems, to_base_units of canonical and compound units in 7 systems and restricted listings are recomputed by "
              "Trace_Sys from the reader's @group / @system blocks.",
